@@ -337,6 +337,19 @@ func c14Run(cs c14Case, deadline time.Duration, traced bool) (recs []c14Rec, han
 		promhook.SetTracer(nil)
 	}
 
+	mu.Lock()
+	gidCopy := append([]uint64{}, gids...)
+	resCopy := append([]c14Res{}, results...)
+	mu.Unlock()
+	evMu.Lock()
+	evCopy := append([]promhook.Event{}, evs...)
+	evMu.Unlock()
+	return c14Project(cs, qs, ask, traced, gidCopy, resCopy, evCopy, srv.Log(), hang, ""), hang, nil
+}
+
+// c14Project turns what was observed in one run into trace records (pure projection).
+func c14Project(cs c14Case, qs []c14Q, ask []int, traced bool, gids []uint64, resCopy []c14Res, evCopy []promhook.Event,
+	srvLog []promsrv.Entry, hang bool, replay string) (recs []c14Rec) {
 	// ---- projection to records
 	id := cs.ID
 	c := c14Blank("Case", id)
@@ -349,16 +362,10 @@ func c14Run(cs c14Case, deadline time.Duration, traced bool) (recs []c14Rec, han
 		seq uint64
 	}
 	var items []item
-	mu.Lock()
 	gidCaller := map[uint64]int{}
 	for i, g := range gids {
 		gidCaller[g] = i + 1
 	}
-	resCopy := append([]c14Res{}, results...)
-	mu.Unlock()
-	evMu.Lock()
-	evCopy := append([]promhook.Event{}, evs...)
-	evMu.Unlock()
 	sort.Slice(evCopy, func(i, j int) bool { return evCopy[i].Seq < evCopy[j].Seq })
 	// job identity = the result channel; its address may be reused once a job is over, so a job
 	// number is allotted at every enq event and later events of that address refer to the latest one
@@ -409,7 +416,7 @@ func c14Run(cs c14Case, deadline time.Duration, traced bool) (recs []c14Rec, han
 		}
 		items = append(items, item{r, e.Seq})
 	}
-	for _, e := range srv.Log() {
+	for _, e := range srvLog {
 		mk := func(h string, seq uint64) {
 			r := c14Blank("S", id)
 			r["h"], r["rid"], r["key"], r["path"], r["seq"], r["outcome"] = h, e.ID, e.Key, e.Path, seq, e.Outcome
@@ -450,8 +457,9 @@ func c14Run(cs c14Case, deadline time.Duration, traced bool) (recs []c14Rec, han
 		}
 	}
 	e["returned"] = returned
+	e["replay"] = replay
 	recs = append(recs, e)
-	return recs, hang, nil
+	return recs
 }
 
 func init() {
